@@ -22,7 +22,7 @@ PROP = {
     ],
     "units": [
         {"pkg": "c15", "test": "TestBatchInvariance", "quick": 2000, "thorough": 30000, "shards": 16},
-        {"pkg": "c15", "test": "TestBatchInvarianceProductionTree", "quick": 250, "thorough": 2500, "shards": 16},
+        {"pkg": "c15", "test": "TestBatchInvarianceProductionTree", "quick": 200, "thorough": 2500, "shards": 16},
         {"pkg": "c15", "test": "TestWitnessF1SilentConvergence", "kind": "plain"},
         {"pkg": "c15", "test": "TestWitnessF2ConstantBesideParameter", "kind": "plain"},
     ],
